@@ -69,7 +69,7 @@ def run(R, tier):
     def builder(variant, default):
         val = EnumV(NV, variant, nv_tab[variant], {0: SymV("T", "value")} if variant == "Value" else {})
         vals = {"value": val, "max": SymV("MAX", "max"), "min": SymV("MIN", "min"), "default": default}
-        return AggV(NB, {i: vals[n] for i, n in enumerate(nb_fields)})
+        return AggV(NB, {i: vals.get(n, TOP) for i, n in enumerate(nb_fields)})
 
     def outcomes(variant, default):
         res = eng.run(fb, [builder(variant, default)])
@@ -134,6 +134,71 @@ def run(R, tier):
             if e.kind == "call" and e.name.split("::")[-1] == "ge":
                 good = good and "'A_MIN'" in repr(e.args[1])
     R.check(good, "R17.4", "finish_with(Value)", "value compared against the given max / min", "finish_with compares a value against the wrong bound", where=fw.span)
+    # ---- R17.5 construction routes: the builder as the API hands it out, then finish() ------------------------------------------
+    # (decided on values the real constructors and setters produce, in every order of the setters - not on a struct literal
+    # assembled by the checker, which would miss a constructor that swaps or forgets a field)
+    import itertools
+
+    def run1(body, args):
+        rs = eng_i.run(body, args)
+        return rs[0].retval if len(rs) == 1 and rs[0].outcome == "return" else None
+
+    def nv(variant):
+        return EnumV(NV, variant, nv_tab[variant], {0: SymV("T", "value")} if variant == "Value" else {})
+
+    def finish_of(bld):
+        rs = eng_i.run(fb, [bld]) if bld is not None else []
+        return sorted({(M.outcome(r), repr(snapshot(ok_value(r))) if ok_value(r) is not None else "") for r in rs})
+
+    try:
+        build_b = uc.body(NV + "::build")
+        new_b = uc.body(NB + "::new")
+        setters = {k: uc.body(NB + "::" + k) for k in ("max", "min", "default")}
+    except facts.AnchorLost as e:
+        R.anchor_lost("R17.5", str(e))
+        build_b = None
+    if build_b is not None:
+        bad = []
+        n_routes = 0
+        # build(): limits are the type's own defaults
+        for variant, want, unwanted in (("Maximum", "numeric_value_max", "numeric_value_min"), ("Minimum", "numeric_value_min", "numeric_value_max")):
+            n_routes += 1
+            got = finish_of(run1(build_b, [nv(variant)]))
+            if not (len(got) == 1 and got[0][0] == "Ok" and want in got[0][1] and unwanted not in got[0][1]):
+                bad.append("build().finish() of %s gives %s, expected the type's %s()" % (variant, got, want))
+        # new(value, max, min)
+        for variant, want in (("Maximum", "'NMAX'"), ("Minimum", "'NMIN'")):
+            n_routes += 1
+            got = finish_of(run1(new_b, [nv(variant), SymV("NMAX", "nmax"), SymV("NMIN", "nmin")]))
+            if not (len(got) == 1 and got[0][0] == "Ok" and want in got[0][1]):
+                bad.append("new(v, max, min).finish() of %s gives %s" % (variant, got))
+        # build() followed by the three setters in every order
+        for order in itertools.permutations(("max", "min", "default")):
+            for variant, want in (("Maximum", "'SMAX'"), ("Minimum", "'SMIN'"), ("Default", "'SDEF'")):
+                n_routes += 1
+                bld = run1(build_b, [nv(variant)])
+                for k in order:
+                    bld = run1(setters[k], [bld, SymV({"max": "SMAX", "min": "SMIN", "default": "SDEF"}[k], k)]) if bld is not None else None
+                got = finish_of(bld)
+                if not (len(got) == 1 and got[0][0] == "Ok" and want in got[0][1]):
+                    bad.append("build().%s.finish() of %s gives %s" % (".".join(order), variant, got))
+        # a plain value through build(): accepted only between the type defaults, compared the right way round
+        bld = run1(build_b, [nv("Value")])
+        rs = eng_i.run(fb, [bld]) if bld is not None else []
+        n_routes += 1
+        okv = bool(rs)
+        n_okv = 0
+        for r in rs:
+            if M.outcome(r) == "Ok":
+                n_okv += 1
+                cm = {e.name.split("::")[-1]: repr(e.args[1]) for e in r.trace if e.kind == "call" and e.name.split("::")[-1] in ("le", "ge")}
+                okv = okv and "numeric_value_max" in cm.get("le", "") and "numeric_value_min" in cm.get("ge", "")
+            elif M.outcome(r) != "Err(DataOutOfRange)":
+                okv = False
+        if not (okv and n_okv == 1):
+            bad.append("build().finish() of a plain value: %s" % [(M.outcome(r)) for r in rs])
+        R.check(not bad, "R17.5", "routes", "MAXimum / MINimum / DEFault resolve to what the constructors and setters were given, in every order of the setters (%d routes)" % n_routes, "; ".join(bad[:3]), where=build_b.span)
+
     # setters write the like-named field
     for setter in ("max", "min", "default"):
         sb = uc.body(NB + "::" + setter)
